@@ -33,6 +33,8 @@
 //   name matches (or the pattern is empty); for NUL-free and NUL-padded patterns also: Ok => it is
 //   the FIRST such identifier, Err => there is none (or the pattern does not compile, or the name
 //   is NULL with a non-zero length).
+#include <sys/prctl.h>
+#include <signal.h>
 #include "device/hal/device.manager.h"
 #include "device/hal/driver.h"
 #include "device/props/device.h"
@@ -179,6 +181,7 @@ run_child(F f, int watchdog_ms)
         exit(3);
     }
     if (pid == 0) {
+        prctl(PR_SET_PDEATHSIG, SIGKILL);
         close(p[0]);
         g_out_fd = p[1];
         f();
